@@ -9,6 +9,8 @@
 (*   call   x = admin|conf|drain : the recording Instance was called       *)
 (*          x = term             : the process got SIGTERM / kill was called*)
 (*   exit   the driver made the parent shut down (what main does on SIGTERM)*)
+(*   pause  child c stayed silent on its connection for a long time         *)
+(*   acceptfault  the driver made accept fail transiently (no descriptors)  *)
 (*   reset  a fresh parent (next recorded run)                             *)
 (* The parent's accept / read / end-of-stream / reply steps are not        *)
 (* observable; they may happen between events (l unchanged).               *)
@@ -33,6 +35,7 @@ Reset ==
   /\ c2p' = [c \in Children |-> <<>>] /\ p2c' = [c \in Children |-> <<>>]
   /\ sent' = [c \in Children |-> <<>>] /\ got' = [c \in Children |-> <<>>]
   /\ reqlog' = <<>> /\ calls' = <<>>
+  /\ idle' = [c \in Children |-> 0] /\ pclosed' = [c \in Children |-> FALSE] /\ faults' = 0
 
 Hidden == ParentAccept \/ ParentRejectFrame \/ ParentRead \/ ParentEOF \/ ParentReply
 
@@ -47,6 +50,8 @@ Visible(e) ==
   \/ e.a = "call"    /\ e.x \in CallSteps /\ ParentStep /\ inhand = e.x
   \/ e.a = "call"    /\ e.x = "term" /\ ParentKill
   \/ e.a = "exit"    /\ ParentExit
+  \/ e.a = "pause"   /\ ChildPause(e.c)
+  \/ e.a = "acceptfault" /\ AcceptFault
   \/ e.a = "reset"   /\ Reset
 
 TraceNext ==
